@@ -12,21 +12,31 @@ PROP = dict(
                        "Comdex.C05.base_conserved_partial", "Comdex.C05.base_conserved_partial_buys",
                        "Comdex.C05.base_conserved_partial_single", "Comdex.C05.base_conserved_partial_step",
                        "Comdex.C05.base_conserved_partial_match",
+                       "Comdex.C05.found_price_in_spread", "Comdex.C05.found_price_iff_crossing",
+                       "Comdex.C05.found_price_amounts_positive", "Comdex.C05.found_price_unmatchable_counterexample",
+                       "Comdex.C05.limit_respected_first_batch", "Comdex.C05.price_uniform_first_batch",
+                       "Comdex.C05.base_conserved_iff_lossless", "Comdex.C05.base_conserved_iff_lossless_single",
+                       "Comdex.C05.distribution_exact_iff_lossless",
+                       "Comdex.C05.pool_buy_amount_on_curve", "Comdex.C05.pool_sell_amount_on_curve",
+                       "Comdex.C05.pool_buy_orders_within_reserves_and_curve",
+                       "Comdex.C05.pool_sell_orders_within_reserves_and_curve", "Comdex.C05.pool_offers_within_reserves",
                        "Comdex.C05.base_conserved_counterexample"],
     harness_tests=["TestC05"],
     trusted_base=[KERNEL_TB, HARNESS_TB, DEC_TB,
                   "Model/AmmMatch.lean is hand-written from x/liquidity/amm/{match,orderbook,util,order}.go and "
                   "x/liquidity/types/order.go (HasPriority); tied by running the real NewOrderBook / Match / MatchAtSinglePrice / "
                   "FindMatchableAmountAtSinglePrice / PriceDirection / SortOrders / DistributeOrderAmountToOrders / MatchableAmount / "
-                  "FillOrder on real BaseOrder / UserOrder / PoolOrder objects and comparing every order's (open, paid, received, "
+                  "FillOrder / FindMatchPrice / MakeView amounts / tick.go primitives / BasicPool curve functions / PoolBuyOrders / "
+                  "PoolSellOrders on real BaseOrder / UserOrder / PoolOrder / BasicPool objects and comparing every order's (open, paid, received, "
                   "matched), quoteCoinDiff, match price, direction and outcome on every call",
                   "Dec / Int overflow panics (>315 / >256 bits) are not modelled: unreachable for amounts <= 10^40 and tick prices in "
                   "[10^-14, 10^20] (the generator range, no panic observed); a zero price is not modelled (ticks are positive)"],
     assumptions=["order objects of one book are pairwise distinct (the code keys its map by pointer); the model gives every order an id",
                  "prices are positive; order states are well-formed (0 <= paid, 0 <= open <= amount, the remaining offer coin covers "
                  "what MatchableAmount allows: buy paid <= offer, sell paid + open <= offer) — what NewUserOrder/NewPoolOrder establish",
-                 "FindMatchPrice (choice of the single match price) and pool order generation (amm/pool.go) are inputs: the theorems "
-                 "hold for every positive price and every order list"],
+                 "FindMatchPrice theorems: order prices are ticks of the precision used (OnGrid), 10^prec < 2^300; with pool curves in the "
+                 "view (MultipleOrderViews) and for ranged pools the price / the pool orders are still inputs of the model",
+                 "pool theorems: basic pools, price limits within [10^-15, 10^18]; the BuyAmountTo order at the price limit is monitored only"],
     rule="each case is one generated order book (1-12 real order objects: tick prices 1e-14..1e20 at precision 1-4, amounts "
          "straddling one quote unit / equal groups / tiny / huge, batch ids 0-3, user+pool or plain orders, offers exact/short/surplus) "
          "with one or more calls of the real engine on it; distinct = distinct trace text, non-trivial = at least one call matched",
@@ -43,7 +53,10 @@ META = dict(
          "rounds is in [0, #fills); the quoteCoinDiff returned by Match / MatchAtSinglePrice is exactly buyers' payments minus sellers' "
          "receipts. Base conservation is proved for the buy side always and for the whole Match when no sell-side distribution loses a "
          "remainder (decidable ghost), and REFUTED in general by a kernel-checked counterexample (defect D2: "
-         "DistributeOrderAmountToOrders drops the remainder after a re-run).",
+         "DistributeOrderAmountToOrders drops the remainder after a re-run) and characterised exactly (equality iff matchLossless). "
+         "FindMatchPrice is modelled: a found price is a positive tick within [lowest sell, highest buy], found iff the book crosses; "
+         "the first batch at that price respects every limit and fills at one price. Basic-pool order generation is modelled: every "
+         "order of the tick loops is within the running reserves and not beyond the constant-product curve.",
     note="Trusted: Lean kernel, Base/Dec.lean (differentially tested), the hand-written model as far as the correspondence run exercises "
          "it, distinct order objects, no 315-bit overflow. The dust bound is proved for lists of conserved fills and "
          "monitored (not proved) for the engine's composed result.",
